@@ -13,6 +13,10 @@
 import JaqVerif.Lemmas.C13Rows
 import JaqVerif.Lemmas.C13B64
 import JaqVerif.Lemmas.C13Pos
+import JaqVerif.Lemmas.C13Regex
+import JaqVerif.Lemmas.C13Restart
+import JaqVerif.Lemmas.C13Json
+import JaqVerif.Lemmas.C13Fmt
 import JaqVerif.Lemmas.C13Urid
 import JaqVerif.C13.Filters
 
@@ -113,12 +117,36 @@ theorem length_slice_indices_count_chars (s y : Bytes) :
     (∀ k ∈ indicesStr s y, k < strLength s ∧ y.isPrefixOf (s.drop (boundary s k)) = true) :=
   ⟨strLength_eq_chars s, fun i j h => sliceChars_eq s i j h, fun k hk => indicesStr_sound s y k hk⟩
 
-/- FULL STATEMENT (not proved): for every `k ∈ indicesStr s y`: `sliceChars s k (k + strLength y) = y`
-   (the manual's `.[i:][:$x|length] == $x`).  It is FALSE for the code as it is when `y` ends in a
-   truncated UTF-8 sequence: `"€" | indices("\xE2")` yields `[0]` but `"€"[0:1] = "€" ≠ "\xE2"`
-   (finding `c13-prop:indices_slice:needle-ends-in-truncated-sequence`). -/
-example : indicesStr [0xE2, 0x82, 0xAC] [0xE2] = [0] ∧
+/- The code BEFORE the repair 4df8bf5 (`indicesStr`, model switch `indicesRepaired = false`) violated
+   the slice equation when `y` ends in a truncated UTF-8 sequence: `"€" | indices("\xE2")` gave `[0]`
+   but `"€"[0:1] = "€" ≠ "\xE2"` (finding `c13-prop:indices_slice:needle-ends-in-truncated-sequence`). -/
+example : indicesStr [0xE2, 0x82, 0xAC] [0xE2] = [0] ∧ indicesStrRepaired [0xE2, 0x82, 0xAC] [0xE2] = [] ∧
     sliceChars [0xE2, 0x82, 0xAC] (some 0) (some 1) = [0xE2, 0x82, 0xAC] := by decide
+
+/-- **`indices` at full strength** (the code as repaired, which is what the filter runs): for ALL
+text strings `s` and ALL non-empty needles `y` — any Unicode, invalid UTF-8 on either side — and
+every `k`:
+
+    `k ∈ (s | indices(y))`   ↔   `s[k:][:y|length] == y`
+
+with positions and lengths counted in characters (bstr chunks; an invalid sequence = one position);
+`.[k:][:n]` is also `.[k:k+n]`.  (Stronger than round 1's third conjunct of
+`length_slice_indices_count_chars`, which only said "the bytes of `y` start at position `k`".)
+For the empty needle jaq answers `[]` (the equation is then true for every `k`; no finite answer
+could list them). -/
+theorem indices_iff_slice (s y : Bytes) (hy : y ≠ []) (k : Nat) :
+    filterRun "indices" (.tstr s) [.tstr y] = .ok (natArr (indicesStrRepaired s y)) ∧
+    (k ∈ indicesStrRepaired s y ↔
+      sliceChars (sliceChars s (some (Int.ofNat k)) none) none (some (Int.ofNat (strLength y))) = y) ∧
+    sliceChars (sliceChars s (some (Int.ofNat k)) none) none (some (Int.ofNat (strLength y)))
+      = sliceChars s (some (Int.ofNat k)) (some (Int.ofNat (k + strLength y))) ∧
+    indicesStrRepaired s [] = [] := by
+  refine ⟨rfl, Jaq.C13.indices_iff_slice s y hy k, ?_, by simp [indicesStrRepaired, indicesStr]⟩
+  rw [slice_slice_eq, sliceChars_eq s k (k + strLength y) (by omega)]
+  congr 3; omega
+
+example : indicesStrRepaired [97, 0xE2, 0x82, 0xAC, 97, 0xFF, 97] [97] = [0, 2, 4] ∧   -- "a€a\xFFa" | indices("a")
+    indicesStrRepaired [0xE2, 0x82, 0xE2, 0x82, 97] [0xE2, 0x82] = [0, 1] := by decide     -- truncated sequences as needle
 
 /-- the offset lookup of `Match::new` (repaired, stateless version) is total on character
 boundaries and inverts `boundary` -/
@@ -136,15 +164,16 @@ example : regexParts [98, 97] false false false true [[⟨0, 2, none⟩, ⟨1, 2
 character boundaries `i ≤ j` of the subject, `Match::new` (first lookup on a fresh iterator, or the
 repaired lookup) yields offset `i`, length `j - i`, and slicing the subject by these character
 positions gives back exactly the matched bytes.
-PARTIAL: the hypothesis `hstable` (chunking the matched substring alone gives the same characters as
-inside the subject) always holds for bstr's decoder — a character's extent depends on at most one
-byte after it, and only by its absence or invalidity — but that truncation lemma is not proved here. -/
-theorem match_slice_eq_string_partial (s : Bytes) (c : Cap) (i j : Nat) (hij : i ≤ j)
-    (hj : j ≤ (Utf8.chars s).length) (hs : c.start = boundary s i) (he : c.stop = boundary s j)
-    (hstable : Utf8.chars ((s.drop c.start).take (c.stop - c.start)) = ((Utf8.chars s).drop i).take (j - i)) :
+ROUND 2: replaces `match_slice_eq_string_partial`; its hypothesis `hstable` is now PROVED
+(`chars_substring`, from the truncation lemma `decode1_take`: cutting the input at or after the end
+of the first character does not change what `Utf8.decode1` returns). -/
+theorem match_slice_eq_string (s : Bytes) (c : Cap) (i j : Nat) (hij : i ≤ j)
+    (hj : j ≤ (Utf8.chars s).length) (hs : c.start = boundary s i) (he : c.stop = boundary s j) :
     ∃ m, matchNewFixed s c = some m ∧ (matchNew s (byteCharNew s) c).1 = some m ∧
       m.offset = i ∧ m.length = j - i ∧
       sliceChars s (some (Int.ofNat m.offset)) (some (Int.ofNat (m.offset + m.length))) = m.string := by
+  have hstable : Utf8.chars ((s.drop c.start).take (c.stop - c.start)) = ((Utf8.chars s).drop i).take (j - i) := by
+    rw [hs, he]; exact chars_substring s i j hij
   have hoff : charOfByte s c.start = some i := by rw [hs]; exact charOfByte_boundary s i (by omega)
   have hstr : (s.drop c.start).take (c.stop - c.start) = (((Utf8.chars s).drop i).take (j - i)).flatten := by
     rw [hs, he]
@@ -168,6 +197,17 @@ theorem match_slice_eq_string_partial (s : Bytes) (c : Cap) (i j : Nat) (hij : i
     have hji : i + (j - i) = j := by omega
     rw [hji, sliceChars_eq s i j hij, hstr]
 
+/-- the truncation / stability facts about bstr's decoder that the above rests on, for ALL byte
+strings: (1) cutting the input at or after the end of its first character does not change the
+decoded character; (2) the substring between two character positions, chunked alone, has exactly
+the characters it has inside the string -/
+theorem chunking_is_stable (s : Bytes) :
+    (∀ m, (Utf8.decode1 s).2 ≤ m → Utf8.decode1 (s.take m) = Utf8.decode1 s) ∧
+    (∀ i j, i ≤ j → Utf8.chars ((s.drop (boundary s i)).take (boundary s j - boundary s i)) = ((Utf8.chars s).drop i).take (j - i)) ∧
+    (∀ i, Utf8.chars (s.drop (boundary s i)) = (Utf8.chars s).drop i) ∧
+    (∀ j, Utf8.chars (s.take (boundary s j)) = (Utf8.chars s).take j) :=
+  ⟨fun m h => decode1_take s m h, fun i j h => chars_substring s i j h, chars_drop_boundary s, chars_take_boundary s⟩
+
 example : -- "a€b": the match "€b" = bytes 1..5 = characters 1..3
     let s : Bytes := [97, 0xE2, 0x82, 0xAC, 98]
     boundary s 1 = 1 ∧ boundary s 3 = 5 ∧
@@ -185,6 +225,72 @@ theorem splits_interleave_reassemble (s : Bytes) (g n : Bool) (caps : List (List
 
 example : capsOrdered 5 0 [[⟨1, 2, none⟩], [⟨2, 2, none⟩], [⟨4, 5, none⟩]] := by
   simp [capsOrdered]
+
+/-! ### ROUND 2: the regex natives over the EXPLICIT contract of the engine
+
+`EngineContract s caps` (Lemmas/C13Regex.lean) says what is assumed about `captures_iter`:
+`ordered` + `inside` (whole matches increasing, non-overlapping, inside the subject; groups inside
+group 0 — guaranteed by the regex crates' API) and `startOnBoundary` + `stopOnBoundary` (every
+range on character boundaries of the subject as bstr sees it — holds for regex-bites because its
+decoder consumes the same units; not a documented guarantee for invalid UTF-8; evaluated on every
+engine result of every run by the executable `contractB`, `contractB_iff`).  Everything else —
+`offset`, `length`, `string`, the unmatched pieces — is computed by jaq and proved here. -/
+
+/-- the repaired code AS WRITTEN (d488b4c: one `ByteChar` shared by all lookups of a `regex()` call,
+started over when a group begins before the iterator's position — `regexPartsRestart`, which is what
+the driver answers the correspondence with) computes exactly what the stateless model
+`regexPartsRepaired` computes, for ANY engine result (also outside the contract), every flag
+combination and both switches -/
+theorem regex_restart_refines_stateless (s : Bytes) (g n mi ma : Bool) (caps : List (List Cap)) :
+    regexPartsRestart s g n mi ma caps = regexPartsRepaired s g n mi ma caps ∧
+    rxRun "matches" g n s caps = some ((regexPartsRestart s g n false true caps).map fun ps => .arr (ps.map partVal)) :=
+  ⟨regexLoopRestart_eq s g n mi ma caps (byteCharNew s) 0 (List.suffix_refl _), rfl⟩
+
+example : -- the input of finding `c13-rx-panic:char_of_byte-unwrap`: "ba" with (?:(a)|(b))+
+    regexParts [98, 97] false false false true [[⟨0, 2, none⟩, ⟨1, 2, none⟩, ⟨0, 1, none⟩]] = none ∧
+    regexPartsRestart [98, 97] false false false true [[⟨0, 2, none⟩, ⟨1, 2, none⟩, ⟨0, 1, none⟩]]
+      = some [.matches [⟨0, 2, [98, 97], none⟩, ⟨1, 1, [97], none⟩, ⟨0, 1, [98], none⟩]] := by decide
+
+/-- under the contract the repaired `regex()` never panics (all of `matches`, `split_matches`,
+`split_`, every flag combination) — only `startOnBoundary` is needed — and every match object of
+every group in its output satisfies `.[m.offset : m.offset + m.length] == m.string`,
+`m.length == (m.string | length)`, and addresses exactly the engine's byte range -/
+theorem regex_offsets_under_contract (s : Bytes) (g n mi ma : Bool) (caps : List (List Cap))
+    (hc : EngineContract s caps) :
+    ∃ parts, regexPartsRepaired s g n mi ma caps = some parts ∧
+      ∀ ms, Part.matches ms ∈ parts → ∀ m ∈ ms,
+        (∃ item ∈ caps, ∃ c ∈ item, boundary s m.offset = c.start ∧ boundary s (m.offset + m.length) = c.stop ∧
+          m.string = (s.drop c.start).take (c.stop - c.start) ∧ m.name = c.name) ∧
+        m.length = strLength m.string ∧
+        sliceChars s (some (Int.ofNat m.offset)) (some (Int.ofNat (m.offset + m.length))) = m.string := by
+  obtain ⟨parts, hp⟩ := regexLoopRepaired_total s g n mi ma caps 0 hc.startOnBoundary
+  refine ⟨parts, hp, ?_⟩
+  intro ms hms m hm
+  obtain ⟨item, hitem, hmo⟩ := regexLoopRepaired_matches s g n mi ma caps 0 parts hp ms hms
+  obtain ⟨c, hcm, hnew⟩ := matchesOfRepaired_mem s item ms hmo m hm
+  have hse : c.start ≤ c.stop := by
+    cases item with
+    | nil => simp at hcm
+    | cons w gs => exact (hc.inside _ hitem w rfl c hcm).2.1
+  obtain ⟨h1, h2, h3, h4, h5, h6⟩ := matchNewFixed_slice s c m hse (hc.startOnBoundary item hitem c hcm)
+    (hc.stopOnBoundary item hitem c hcm) hnew
+  exact ⟨⟨item, hitem, c, hcm, h4, h5, h1, h3⟩, h2, h6⟩
+
+/-- under the contract (only `ordered` is used) the parts of the repaired `split_matches` /
+`splits` reassemble the subject -/
+theorem splits_interleave_reassemble_contract (s : Bytes) (g n : Bool) (caps : List (List Cap)) (parts : List Part)
+    (hc : EngineContract s caps) (h : regexPartsRepaired s g n true true caps = some parts) :
+    (parts.map Part.text).flatten = s := by
+  have := regexLoopRepaired_reassemble s g n caps 0 parts hc.ordered h
+  simpa using this
+
+/-- the contract is satisfiable and decidable: "aé,b" with the engine's result for `(\w)|(,)` -/
+example : EngineContract [97, 0xC3, 0xA9, 44, 98]
+    [[⟨0, 1, none⟩, ⟨0, 1, none⟩], [⟨1, 3, none⟩, ⟨1, 3, none⟩], [⟨3, 4, none⟩, ⟨3, 4, none⟩], [⟨4, 5, none⟩, ⟨4, 5, none⟩]] :=
+  (contractB_iff _ _).mp (by decide)
+/-- … and it excludes a range that ends inside a character -/
+example : ¬ EngineContract [0xC3, 0xA9] [[⟨0, 1, none⟩]] :=
+  fun h => absurd ((contractB_iff _ _).mpr h) (by decide)
 
 /-! ## 4. escaping is safe for the consumers -/
 
@@ -264,5 +370,152 @@ output consists of unreserved bytes (`A-Za-z0-9-._~`) and `%` only -/
 theorem percentDecode_uri (s : Bytes) :
     percentDecode (uri s) = s ∧ ∀ c ∈ uri s, isUnreserved c = true ∨ c = 37 :=
   ⟨scan_flatMap' percentStep uriEsc uriEsc_ne_nil percentStep_uriEsc s, uri_bytes s⟩
+
+/-! ## 5. ROUND 2: `@json` through C07's proved writer and reader
+
+`toJson` (what `@json` / `tojson` / string interpolation print for null, booleans, integers of any
+size, decimal literals, text strings, arrays and objects of these) IS C07's writer
+(`toJson_eq_write`; the per-byte string table regenerated by C13 equals C07's: `jsonEsc_eq_escT1`,
+decided over all 256 bytes), so C07's theorems about the reader apply to `@json` output. -/
+
+/-- `@json | fromjson`: the reader (`C07.parseSingle` = `jaq_json::read::parse_single`) applied to
+what `@json` prints returns the original value — exactly: `C07.canon` only puts integers into
+canonical representation (machine integer iff it fits 64 bits) since `toJson` prints no float.
+`GoodVal`: decimal literals inside `v` are ones the reader produces; `KeysOk`: the `IndexMap`
+invariant (keys of an object pairwise different). -/
+theorem json_parse_roundtrip (v : Val) (b : Bytes) (h : toJson v = some b)
+    (hg : C07.GoodVal v) (hk : C07.KeysOk (C07.canon cfg0 C07.Pp.compact v)) :
+    fmtRun "json" v = .ok (.tstr b) ∧ b = C07.write cfg0 C07.Pp.compact v ∧
+    C07.parseSingle b = some (C07.canon cfg0 C07.Pp.compact v) := by
+  have hw : C07.write cfg0 C07.Pp.compact v = b := toJson_eq_write cfg0 v.size v b 0 (Nat.le_refl _) h
+  refine ⟨by simp [fmtRun, h, okStr], hw.symm, ?_⟩
+  rw [← hw]
+  have hs := C07.spells_write cfg0 cfg0_lit C07.Pp.compact (by intro s h; cases h) v.size v (Nat.le_refl _) hg 0
+  have := C07.parseSingle_spells _ _ [] [] hs C07.isGap_nil C07.isGap_nil
+  rw [C07.resolve_of_keysOk _ hk] at this
+  simpa [C07.write] using this
+
+/-- strings, unconditionally: for EVERY byte string (quotes, backslashes, control characters,
+invalid UTF-8) a JSON reader gets back exactly the original text string from `@json` output; and
+inside any larger text the string ends exactly at jaq's closing quote (`rest` is left untouched) -/
+theorem json_string_safe (s rest : Bytes) :
+    toJson (.tstr s) = some (jsonQuote s) ∧
+    C07.parseSingle (jsonQuote s) = some (.tstr s) ∧
+    C07.readStr false ((jsonQuote s).drop 1 ++ rest) = some (s, rest) := by
+  refine ⟨rfl, ?_, ?_⟩
+  · rw [jsonQuote_eq_writeTStr]
+    have h : C07.Spells (.tstr s) (C07.writeTStr s) := by
+      simp only [C07.Spells, C07.writeTStr]; exact ⟨s.flatMap C07.escT1, fun rest => C07.readStr_escT s rest, rfl⟩
+    have := C07.parseSingle_spells _ _ [] [] h C07.isGap_nil C07.isGap_nil
+    simpa [C07.resolve] using this
+  · rw [jsonQuote_eq_writeTStr]
+    have := C07.readStr_escT s rest
+    simpa [C07.writeTStr] using this
+
+/-- `@json "…\(f)…"`: wherever a JSON reader expects a value, it reads from `@json` output followed
+by ANY literal text `rest` exactly the original value and continues at `rest` — provided `rest`
+does not continue a number (digits, `.`, `e`, `E`: numbers are the only JSON values that are not
+self-delimiting) -/
+theorem json_in_format_string (v : Val) (b rest : Bytes) (n : Nat) (h : toJson v = some b) (hg : C07.GoodVal v)
+    (hr : C07.NumStop rest) (hn : 2 * (C07.canon cfg0 C07.Pp.compact v).size ≤ n) :
+    C07.parseValF n (b ++ rest) = some (C07.resolve (C07.canon cfg0 C07.Pp.compact v), rest) := by
+  have hw : C07.write cfg0 C07.Pp.compact v = b := toJson_eq_write cfg0 v.size v b 0 (Nat.le_refl _) h
+  have hs := C07.spells_write cfg0 cfg0_lit C07.Pp.compact (by intro s h; cases h) v.size v (Nat.le_refl _) hg 0
+  rw [← hw]
+  exact C07.spells_parseValF _ _ rest n hs hr hn
+
+example : toJson (.arr [.tstr [34, 92, 10, 0xFF], .null, .obj [(.tstr [97], .bool true)]]) =
+    some [91, 34, 92, 34, 92, 92, 92, 110, 0xFF, 34, 44, 110, 117, 108, 108, 44, 123, 34, 97, 34, 58, 116, 114, 117, 101, 125, 93] := by
+  decide
+
+/-! ## 6. ROUND 2: format strings `@fmt "…\(f)…"` with ANY interleaving of parts
+
+Model of `jaq-core/src/compile.rs` (`Compiler::term`, arm `Str(fmt, parts)`): `fmtStringN name parts`
+with `parts : List FmtPart` (`lit s` | `interp v`): interpolated parts go through the formatter,
+literal parts do not, everything is concatenated. -/
+
+/-- the compile.rs rule: when every interpolation formats (`FmtPart.out`), the result is the
+concatenation of the literal parts AS THEY ARE and the FORMATTED interpolated parts, in order -/
+theorem format_string_rule (name : String) (parts : List FmtPart) (outs : List Bytes)
+    (h : parts.map (FmtPart.out name) = outs.map some) :
+    fmtStringN name parts = .ok (.tstr outs.flatten) :=
+  fmtStringN_ok name parts outs h
+
+/-- **`@sh "…\(f)…"` is safe for every interleaving**: let `sps` be the parts after `@sh`'s argument
+rule (`shPartOf`: a string is quoted, null / booleans / numbers are printed, an array contributes its
+elements blank-separated).  Whenever the command template is well-formed — `shLexT` (the POSIX word
+lexer on the programmer's literal bytes, an argument adding exactly its data to the word in
+progress) accepts it, i.e. no interpolation stands inside the programmer's own quotes or after the
+programmer's backslash — a POSIX shell reading jaq's output gets exactly the words `ws` of the
+template: every interpolated string arrives byte for byte (quotes, `$`, backquotes, newlines, globs,
+invalid UTF-8) in the word where it was placed, and nothing in it is interpreted. -/
+theorem sh_format_string_safe (parts : List FmtPart) (sps : List ShPart) (ws : List Bytes)
+    (hparts : parts.map shPartOf = sps.map some)
+    (hok : ∀ xs, ShPart.interp xs ∈ sps → ∀ x ∈ xs, x.ok = true)
+    (ht : shLexT false none (sps.flatMap ShPart.toks) = some ws) :
+    ∃ out, fmtStringN "sh" parts = .ok (.tstr out) ∧ out = (sps.map ShPart.out).flatten ∧ shWords out = some ws := by
+  have houts : parts.map (FmtPart.out "sh") = (sps.map ShPart.out).map some :=
+    map_opt_transfer shPartOf (FmtPart.out "sh") ShPart.out shPartOf_out parts sps hparts
+  refine ⟨(sps.map ShPart.out).flatten, fmtStringN_ok "sh" parts _ houts, rfl, ?_⟩
+  rw [← shRender_parts]
+  apply shLex_render _ false none ws _ ht
+  intro x hx
+  obtain ⟨p, hp, hxp⟩ := List.mem_flatMap.mp hx
+  cases p with
+  | lit s => simp [ShPart.toks] at hxp
+  | interp xs => exact hok xs hp x (mem_shArgToks hxp)
+
+/-- `@sh "echo \(.a) \(.b)-x"` with `.a = "a b'c"` and `.b = [1, "$(rm)"]`: the shell sees the words
+`echo`, `a b'c`, `1`, `$(rm)-x` -/
+example :
+    let sps := [ShPart.lit [101, 99, 104, 111, 32], .interp [.str [97, 32, 98, 39, 99]], .lit [32],
+                .interp [.raw [49], .str [36, 40, 114, 109, 41]], .lit [45, 120]]
+    shLexT false none (sps.flatMap ShPart.toks) = some [[101, 99, 104, 111], [97, 32, 98, 39, 99], [49], [36, 40, 114, 109, 41, 45, 120]] ∧
+    shWords (sps.map ShPart.out).flatten = some [[101, 99, 104, 111], [97, 32, 98, 39, 99], [49], [36, 40, 114, 109, 41, 45, 120]] := by
+  decide
+
+/-- what the guard excludes — `@sh "echo '\(.a)'"` (an interpolation inside the programmer's own
+quotes) with `.a = "a b"`: the template is refused, and indeed the shell would see `a` and `b` -/
+example :
+    let sps := [ShPart.lit [101, 99, 104, 111, 32, 39], .interp [.str [97, 32, 98]], .lit [39]]
+    shLexT false none (sps.flatMap ShPart.toks) = none ∧
+    shWords (sps.map ShPart.out).flatten = some [[101, 99, 104, 111], [97], [98]] := by
+  decide
+
+/-- **`@html "…\(f)…"` and `@uri "…\(f)…"` for every interleaving**: let `eps` be the parts with every
+interpolated value replaced by its `tostring` bytes (`encPartOf`).  If every literal part is
+`Closed` for the consumer's scanner (scanning never needs to look past its end: e.g. it contains no
+`&` resp. no `%` — last two conjuncts; a literal ending in a started reference like `&am` is not),
+then the HTML character-reference decoder / the RFC 3986 percent-decoder applied to the whole
+output returns the decoded literals and the ORIGINAL interpolated data, in order; and none of
+`< > ' "` resp. no reserved byte in the output comes from interpolated data (`htmlDecode_html`,
+`percentDecode_uri`). -/
+theorem html_uri_format_string_safe (parts : List FmtPart) (eps : List EncPart)
+    (hparts : parts.map encPartOf = eps.map some) :
+    ((∀ l, EncPart.lit l ∈ eps → Closed htmlDecodeStep l) →
+      ∃ out, fmtStringN "html" parts = .ok (.tstr out) ∧ htmlDecode out = (eps.map (EncPart.meaning htmlDecodeStep)).flatten) ∧
+    ((∀ l, EncPart.lit l ∈ eps → Closed percentStep l) →
+      ∃ out, fmtStringN "uri" parts = .ok (.tstr out) ∧ percentDecode out = (eps.map (EncPart.meaning percentStep)).flatten) ∧
+    (∀ l : Bytes, (38 : UInt8) ∉ l → Closed htmlDecodeStep l ∧ htmlDecode l = l) ∧
+    (∀ l : Bytes, (37 : UInt8) ∉ l → Closed percentStep l ∧ percentDecode l = l) := by
+  refine ⟨?_, ?_, closed_of_no_trigger htmlDecodeStep 38 htmlDecodeStep_other, closed_of_no_trigger percentStep 37 percentStep_other⟩
+  · intro hc
+    have houts := map_opt_transfer encPartOf (FmtPart.out "html") (EncPart.out htmlEsc)
+      (encPartOf_out "html" htmlEsc (fun v => rfl)) parts eps hparts
+    exact ⟨_, fmtStringN_ok "html" parts _ houts, scan_parts htmlDecodeStep htmlEsc htmlEsc_ne_nil htmlDecodeStep_htmlEsc eps hc⟩
+  · intro hc
+    have houts := map_opt_transfer encPartOf (FmtPart.out "uri") (EncPart.out uriEsc)
+      (encPartOf_out "uri" uriEsc (fun v => rfl)) parts eps hparts
+    exact ⟨_, fmtStringN_ok "uri" parts _ houts, scan_parts percentStep uriEsc uriEsc_ne_nil percentStep_uriEsc eps hc⟩
+
+/-- `@html "<b>\(.x)</b>\(.y)"` with `.x = "<&>"`, `.y = true` -/
+example :
+    [FmtPart.lit [60, 98, 62], .interp (.tstr [60, 38, 62]), .lit [60, 47, 98, 62], .interp (.bool true)].map encPartOf
+      = [EncPart.lit [60, 98, 62], .data [60, 38, 62], .lit [60, 47, 98, 62], .data [116, 114, 117, 101]].map some := by
+  decide
+
+/- NOT PROVED for format strings (still only as single formatter applications, section 4):
+   `@csv "…"` / `@tsv "…"` with rows interleaved with literal separators; `@base64 "…"`;
+   closedness of literals that contain complete references (`&amp;`, `%41`). -/
 
 end Jaq.C13.Props
